@@ -23,6 +23,15 @@ CHECKS = {
              "conversion laws and compound units are enumerated/sampled. Exhaustive on the pair domain, sampling beyond it.",
         note="R reads the same definition files (wrong literals in the files are C20's); 29 float-tainted units (fractional power of a scale) are compared with the float tolerance in every registry type.",
         design="5/C02"),
+    "C03": dict(
+        technique="Hypothesis expression trees over quantities evaluated under two unit assignments (metamorphic relation) and against a reference evaluation over exact (value, dimension) pairs; operator-form differential (plain vs reflected vs in-place) with operand snapshots",
+        text="Random expression trees (depth <= 3) over + - * / // % divmod, integer powers, neg, abs and a comparison are built so that additive nodes are "
+             "dimensionally valid by construction most of the time; every leaf is one physical value in two units with an exact Fraction re-expression. In the "
+             "Fraction registry both evaluations and the reference model must agree exactly (value, dimension, error class, no float contamination); in the "
+             "float registry agreement is required within a propagated error bound, away from ties. Reflected and in-place forms (scalars and ndarrays) "
+             "must equal the plain form and leave every operand but the in-place target untouched. Sampling only.",
+        note="Leaf units are restricted to rational, positively scaled multiplicative units; ill-conditioned float trees (near-zero divisors, nested powers > 4) are skipped and counted. One known finding (int ** negative power) is excluded by construction in the tree tier and reported by the forms tier.",
+        design="5/C03"),
     "C04": dict(
         technique="bounded-exhaustive enumeration of unit containers over a 3-letter alphabet (all ordered pairs, sampled triples) in 3 exponent types x 3 layers against a dict model of the free abelian group; Hypothesis containers over real unit names; Hypothesis integer matrices for pi-theorem with own Fraction rank/null-space oracle",
         text="All 343 containers over {a,b,c} with exponents in {-2..2, +-1/2} and their ordered pairs are multiplied, divided, raised and compared in the "
